@@ -194,9 +194,10 @@ fn check_list(before: &[H], after: &[H], font: &Font, lang: &Liang, lhm: i32, rh
     // the TeX model on the same list (full differential: informational, and for the triage of failures)
     let before_t: Vec<TNode> = before.iter().map(to_tnode).collect();
     let after_t: Vec<TNode> = after.iter().map(to_tnode).collect();
-    // domain: a word directly followed by a ligature node whose original characters start with a
-    // non-letter, when the program has a rule for (last character or last letter of the word, that non-letter). TeX §898 then
-    // takes that character as `hyf_bchar` although it is already inside the following node, and the
+    // domain: a word directly followed by a ligature node that does not belong to the word (it contains
+    // a non-letter, or crosses the 63-letter limit), when the first original character of that ligature
+    // takes part in the rebuilding of the word as its right boundary. TeX §898 then
+    // takes that first character as `hyf_bchar` although it is already inside the following node, and the
     // rebuilt word repeats the ligature: TeX itself changes the list there (the crate's TeX-verified
     // tests right_boundary_char_override_3..6 record it). Outside the quantifier, skipped and counted.
     {
@@ -204,16 +205,16 @@ fn check_list(before: &[H], after: &[H], font: &Font, lang: &Liang, lhm: i32, rh
         let relaxed = liang::FinderParams { lc: &ascii_lc, uc_hyph: true, l_hyf: 0, r_hyf: 0, hyphen_char_ok: &|_| true };
         for g in (0..nodes.len()).filter(|i| matches!(nodes[*i], Node::Glue)) {
             if let Some(w) = liang::find_word(&nodes, g, &relaxed) {
-                let last = match &before_t[w.hb] {
-                    TNode::Char(c) => Some(*c),
-                    TNode::Lig { ch, .. } => Some(*ch),
-                    _ => None,
-                };
-                if let (Some(last), Some(Node::Lig { orig, .. })) = (last, nodes.get(w.hb + 1)) {
-                    if let Some(c) = orig.first().filter(|c| ascii_lc(**c).is_none()) {
-                        // (left = the character of the word's last node, or its last letter, which is
-                        // the left character again while the word is being rebuilt)
-                        if font.model.rules.iter().any(|r| (r.0 == Some(last) || r.0 == w.letters.last().copied()) && r.1 == *c) {
+                // does the character that TeX takes as hyf_bchar from inside the following ligature node
+                // take part in the rebuilding of the word? (decided by the model: rebuild the word with
+                // and without it and compare)
+                if let (Some(Node::Lig { orig, .. }), liang::Bchar::Char(_)) = (nodes.get(w.hb + 1), w.bchar) {
+                    if !orig.is_empty() {
+                        let zeros = |wl: &[char]| vec![0u8; wl.len() + 1];
+                        let pp = liang::PassParams { hyf: &zeros, lc: &ascii_lc, uc_hyph: true, l_hyf: 1, r_hyf: 1, hyphen_char: '-', always_left_boundary: false, always_rebuild: true, ignore_left_context: false, font_bchar_at_word_end: false };
+                        let mut w2 = w.clone();
+                        w2.bchar = liang::Bchar::NonChar;
+                        if liang::hyphenate_word(&before_t, &w, &font.model, &pp) != liang::hyphenate_word(&before_t, &w2, &font.model, &pp) {
                             v.out_of_domain = true;
                             return v;
                         }
@@ -224,8 +225,8 @@ fn check_list(before: &[H], after: &[H], font: &Font, lang: &Liang, lhm: i32, rh
     }
     let (l_hyf, r_hyf) = (liang::norm_min(lhm as i64), liang::norm_min(rhm as i64));
     let hyf_fn = |w: &[char]| memo_hyf(lang, w);
-    let pp_tex = liang::PassParams { hyf: &hyf_fn, lc: &ascii_lc, uc_hyph: true, l_hyf, r_hyf, hyphen_char: '-', always_left_boundary: false, always_rebuild: false, ignore_left_context: false };
-    let pp_d21 = liang::PassParams { hyf: &hyf_fn, lc: &ascii_lc, uc_hyph: true, l_hyf, r_hyf, hyphen_char: '-', always_left_boundary: true, always_rebuild: true, ignore_left_context: false };
+    let pp_tex = liang::PassParams { hyf: &hyf_fn, lc: &ascii_lc, uc_hyph: true, l_hyf, r_hyf, hyphen_char: '-', always_left_boundary: false, always_rebuild: false, ignore_left_context: false, font_bchar_at_word_end: false };
+    let pp_d21 = liang::PassParams { hyf: &hyf_fn, lc: &ascii_lc, uc_hyph: true, l_hyf, r_hyf, hyphen_char: '-', always_left_boundary: true, always_rebuild: true, ignore_left_context: false, font_bchar_at_word_end: false };
     let tex_after = liang::hyphenate_list(&before_t, &font.model, &pp_tex);
     v.vs_tex = if same_nodes(&tex_after, &after_t) {
         "= TeX model"
@@ -257,7 +258,7 @@ fn check_list(before: &[H], after: &[H], font: &Font, lang: &Liang, lhm: i32, rh
             ctx_char.map(|c| font.model.rules.iter().any(|r| r.0 == Some(c) && r.1 == w.letters[0])).unwrap_or(false)
         });
         if applies {
-            let pp_adj = liang::PassParams { hyf: &hyf_fn, lc: &ascii_lc, uc_hyph: true, l_hyf, r_hyf, hyphen_char: '-', always_left_boundary: false, always_rebuild: true, ignore_left_context: true };
+            let pp_adj = liang::PassParams { hyf: &hyf_fn, lc: &ascii_lc, uc_hyph: true, l_hyf, r_hyf, hyphen_char: '-', always_left_boundary: false, always_rebuild: true, ignore_left_context: true, font_bchar_at_word_end: true };
             let adj = liang::hyphenate_list(&before_t, &font.model, &pp_adj);
             let a: Vec<&TNode> = adj.iter().filter(|n| !matches!(n, TNode::Disc { .. })).collect();
             let b: Vec<&TNode> = after_t.iter().filter(|n| !matches!(n, TNode::Disc { .. })).collect();
@@ -494,9 +495,12 @@ fn judge(idx: u64, case: &Case, font: &Font, hy: &boxworks_hyphenate::Hyphenator
     };
     let v = check_list(&before, &after, font, lang, case.lhm, case.rhm, acc);
     if v.out_of_domain {
+        if case.program.is_empty() && std::env::var("C14_DEBUG_SKIP").is_ok() {
+            eprintln!("SKIP {:?} {} ({},{}) {}", case.text, case.patterns, case.lhm, case.rhm, show(&before));
+        }
         acc.skipped += 1;
         acc.count("skipped_word_followed_by_punctuation_ligature");
-        acc.class("skipped: word followed by a ligature that starts with a non-letter");
+        acc.class("skipped: word followed by a ligature with a non-letter that interacts with the word's end");
         return;
     }
     if v.expected_cuts > 0 {
@@ -536,7 +540,7 @@ fn judge(idx: u64, case: &Case, font: &Font, hy: &boxworks_hyphenate::Hyphenator
 fn tex_pass_text(before: &[H], font: &Font, lang: &Liang, case: &Case) -> String {
     let bt: Vec<TNode> = before.iter().map(to_tnode).collect();
     let hyf_fn = |w: &[char]| memo_hyf(lang, w);
-    let pp = liang::PassParams { hyf: &hyf_fn, lc: &ascii_lc, uc_hyph: true, l_hyf: liang::norm_min(case.lhm as i64), r_hyf: liang::norm_min(case.rhm as i64), hyphen_char: '-', always_left_boundary: false, always_rebuild: false, ignore_left_context: false };
+    let pp = liang::PassParams { hyf: &hyf_fn, lc: &ascii_lc, uc_hyph: true, l_hyf: liang::norm_min(case.lhm as i64), r_hyf: liang::norm_min(case.rhm as i64), hyphen_char: '-', always_left_boundary: false, always_rebuild: false, ignore_left_context: false, font_bchar_at_word_end: false };
     liang::render(&liang::hyphenate_list(&bt, &font.model, &pp))
 }
 
@@ -709,7 +713,7 @@ fn main() {
     ctx.assume("\\uchyph > 0, \\hyphenchar = '-', \\lccode = plain TeX's restricted to ASCII: the values the crate hard-codes");
     ctx.assume("'exactly the Liang positions' is read with TeX's own restriction: the positions expected in a word are those at which the transliterated pass (tex.web §902-918: reconstitute, hyphen_passed, the synchronisation of §916) creates a discretionary; inside one reconstituted ligature chain that is only the first odd position (raffish -> raf-fish, never raff-ish)");
     ctx.assume("the pass model reftex::liang::hyphenate_list is a transliteration of tex.web §894-918 written without a TeX binary; it is bound to TeX by the crate's 33 TeX-verified test expectations, which it reproduces node for node (a run refuses to start otherwise)");
-    ctx.assume("synthetic programs have rules over {left boundary, a, b, -} x {a, b, -, right boundary}. Outside the quantifier (skipped and counted): a word directly followed by a ligature node that starts with a non-letter when the program has a rule for (last character or last letter of the word, that non-letter) - TeX §898 then uses that character as hyf_bchar although it is already inside the following node and itself repeats the ligature (the crate's TeX-verified tests right_boundary_char_override_3..6 record this)");
+    ctx.assume("synthetic programs have rules over {left boundary, a, b, -} x {a, b, -, right boundary}. Outside the quantifier (skipped and counted): a word directly followed by a ligature node that is not part of the word (it contains a non-letter or crosses the 63-letter limit) when the first original character of that ligature, which TeX §898 uses as hyf_bchar, changes the rebuilt word (decided by the model: the word is rebuilt with and without it) - TeX then uses a character as right boundary although it is already inside the following node and itself repeats the ligature (the crate's TeX-verified tests right_boundary_char_override_3..6 record this)");
     ctx.assume("a list in which the invariants hold but whose discretionaries differ from the transliterated TeX pass in their kerns/ligatures is counted (invariants_hold_but_list_differs_from_tex_pass), not judged: the property speaks about letters and positions only");
 
     let repo = std::env::var("VERIF_REPO").unwrap_or("/repo".into());
@@ -1049,7 +1053,7 @@ fn self_validate(ctx: &mut Ctx, env: &Env) {
             lang.add_exception(e, &ascii_lc);
         }
         let hyf_fn = |w: &[char]| lang.hyf(w);
-        let pp = liang::PassParams { hyf: &hyf_fn, lc: &ascii_lc, uc_hyph: true, l_hyf: liang::norm_min(*lhm as i64), r_hyf: 1, hyphen_char: '-', always_left_boundary: false, always_rebuild: false, ignore_left_context: false };
+        let pp = liang::PassParams { hyf: &hyf_fn, lc: &ascii_lc, uc_hyph: true, l_hyf: liang::norm_min(*lhm as i64), r_hyf: 1, hyphen_char: '-', always_left_boundary: false, always_rebuild: false, ignore_left_context: false, font_bchar_at_word_end: false };
         let got = match catch(|| liang::hyphenate_list(&list, &font, &pp)) {
             Ok(g) => liang::render(&g[2.min(g.len())..]),
             Err(p) => format!("model panicked: {}", p.describe()),
